@@ -218,6 +218,16 @@ def check_doc(case) -> Res:
                 if gw != want:
                     fail(f"write.{'lenient' if lenient else 'strict'}.corrections:" + mdiff(want, gw), ch,
                          f"text={r.text!r} corrections={gw}", want)
+                if not lenient and not d.get("frontmatter"):
+                    # the same payload wrapped in ONE outer markdown code fence (the unwrap itself is an advisory): the rewrites inside
+                    # are surfaced all the same (kinds, originals and results; positions refer to a text the caller did not send)
+                    rf = loop.run_until_complete(t["w"].execute(target_path=path, content="```octave\n" + r.text + "```\n", corrections_only=True, lenient=False))
+                    steps += 1
+                    if rf.get("status") == "success":
+                        gf = sorted((g[0], g[1], g[2]) for g in corrections_receipts(rf.get("corrections", [])))
+                        wf = sorted((g[0], g[1], g[2]) for g in want)
+                        if gf != wf:
+                            fail("write.strict.fenced.corrections:differ-from-unfenced", ch, f"text={r.text!r} corrections={gf}", wf)
                 comp = rw.get("compilations", [])
                 if lenient:
                     n_dicts = sum(1 for c in comp if isinstance(c, dict))
